@@ -13,6 +13,7 @@ package c07
 import (
 	"context"
 	"fmt"
+	"os"
 	"strings"
 	"sync"
 	"sync/atomic"
@@ -40,6 +41,8 @@ type BatchStopCase struct {
 	Stop    string `json:"stop"`    // stop | delete | close
 	AfterMs int    `json:"afterms"` // the stop is requested this long after the start
 	Rounds  int    `json:"rounds"`  // task lifecycles per case (the interesting moments are narrow)
+	// GroupBy: a groupBy node (batch edge) sits between the query node and the sink
+	GroupBy bool `json:"groupby,omitempty"`
 }
 
 const ruleBatchStop = "rapid: batch task with 1-2 query nodes (every 5-50ms, with and without align, or an every-second cron) against a fake InfluxDB that takes 0-120ms per query and returns 0-3 rows; StopTask / DeleteTask / TaskMaster.Close 0-150ms after the start; 3-12 task lifecycles per case; " +
@@ -56,6 +59,14 @@ func genBatchStop(t *rapid.T) BatchStopCase {
 	c.Stop = rapid.SampledFrom([]string{"stop", "delete", "close"}).Draw(t, "stop")
 	c.AfterMs = rapid.SampledFrom([]int{0, 1, 7, 20, 40, 70, 110, 150}).Draw(t, "after")
 	c.Rounds = rapid.SampledFrom([]int{3, 6, 12}).Draw(t, "rounds")
+	c.GroupBy = rapid.IntRange(0, 3).Draw(t, "groupby") == 0
+	if c.GroupBy && os.Getenv("VERIF_C07_NO_EXCLUDE") == "" {
+		// known finding batch/lost/groupby: excluded by construction, counted; the witness is replayed
+		if batchRec != nil {
+			batchRec.Exclude("batch task with a groupBy node on a batch edge (its last batch is never handed on)")
+		}
+		c.GroupBy = false
+	}
 	for _, q := range c.Queries {
 		if q.Sched == "cron" && c.AfterMs < 150 && rapid.Bool().Draw(t, "cronwait") {
 			c.AfterMs = 1100 // let the every-second cron tick at least once
@@ -76,6 +87,9 @@ func (c BatchStopCase) script() string {
 			fmt.Fprintf(&s, ".every(%dms).align()", q.EveryMs)
 		case "cron":
 			s.WriteString(".cron('* * * * * * *')")
+		}
+		if c.GroupBy {
+			s.WriteString("|groupBy('h')")
 		}
 		fmt.Fprintf(&s, "|log().prefix('B%d')\n", i)
 	}
@@ -123,6 +137,7 @@ func (c slowClient) QueryFluxResponse(q influxdb.FluxQuery) (*influxdb.Response,
 func (c slowClient) CreateBucketV2(bucket string, org string, orgID string) error { return nil }
 
 var batchMu sync.Mutex
+var batchRec *kit.Rec
 
 func runBatchStop(c BatchStopCase, cc *kit.Case) {
 	batchMu.Lock()
@@ -136,6 +151,9 @@ func runBatchStop(c BatchStopCase, cc *kit.Case) {
 		}
 	}
 	cc.Label("stop:" + c.Stop)
+	if c.GroupBy {
+		cc.Label("groupBy-node")
+	}
 	if pending {
 		cc.NonTrivial()
 		cc.Label("tick-pending-during-query")
@@ -201,6 +219,16 @@ func runBatchStop(c BatchStopCase, cc *kit.Case) {
 		if inFlight > 0 {
 			cc.Label("query-in-flight-at-stop")
 		}
+		// conservation: the query loop collects the batches of every answered query before it looks
+		// at the stop request again; a response with rows is one series = one batch
+		if answered := atomic.LoadInt64(&inf.answered); c.Rows > 0 && int64(nBatches) < answered {
+			sig := "batch/lost"
+			if c.GroupBy {
+				sig = "batch/lost/groupby"
+			}
+			cc.Fail(sig, "round %d: the fake InfluxDB answered %d queries with %d rows each before the task ended, the sinks received %d batches: accepted data was dropped at the stop (%s)\n%s", r, answered, c.Rows, nBatches, c.Stop, script)
+			return
+		}
 		if int64(nBatches) > atomic.LoadInt64(&inf.answered) {
 			cc.Fail("batch/invented", "round %d: the sinks received %d batches, the fake InfluxDB answered %d queries\n%s", r, nBatches, inf.answered, script)
 			return
@@ -224,12 +252,14 @@ func runBatchStop(c BatchStopCase, cc *kit.Case) {
 
 var assumptionsBatchStop = []string{
 	"the query node's tickers run on the system clock: which moment of the ticker / query cycle the stop meets is sampled by the generated delays (query duration vs tick interval, stop delay) and by repetition (3-12 lifecycles per case)",
-	"a query that is in flight when the stop arrives may complete or be abandoned; batches are only checked not to be invented",
+	"the query loop collects the batches of every answered query before it looks at the stop request again: with rows in the responses, as many batches as answered queries must reach the sinks before the task ends; batches are never invented",
+	"known finding batch/lost/groupby: a groupBy node on a batch edge hands the groups of a batch on only when the next batch begins, so the last batch before the stop is dropped; the class is excluded by construction (counted) and covered by the replayed witness",
 	"hang bound 20 s for stops that take milliseconds (plus at most one query duration)",
 }
 
 func TestStopBatch(t *testing.T) {
 	r := kit.NewRec("C07", "StopBatch", ruleBatchStop, assumptionsBatchStop...)
+	batchRec = r
 	kit.Check(t, r, genBatchStop, runBatchStop)
 }
 
